@@ -115,7 +115,7 @@ func mkElem(kind string, rng *rand.Rand) elem {
 		method, params = "J.Err", "[1]"
 		e.Expect = "optional-error"
 	case "unknown":
-		method = []string{"J.Nope", "Val", "j.val", "J.", "", "X.Val", "J.Val "}[rng.Intn(7)]
+		method = []string{"J.Nope", "Val", "j.val", "J.", "", "X.Val", "J.Val ", "J.Dangling", "J.Missing"}[rng.Intn(9)]
 		e.Expect, e.Code, e.Runs = "error", -32601, 0
 		if method == "" {
 			e.Code = 0 // an empty method name is not a well-formed request: any error
@@ -206,6 +206,7 @@ func newC09Srv(opts ...jsonrpc.ServerOption) *c09Srv {
 	s := &c09Srv{j: &J{}, rpc: jsonrpc.NewServer(opts...)}
 	s.rpc.Register("J", s.j)
 	s.rpc.AliasMethod("J.Alias", "J.Val")
+	s.rpc.AliasMethod("J.Dangling", "J.Missing") // an alias whose original was never registered
 	return s
 }
 
@@ -440,8 +441,13 @@ func judgeBody(body string, isBatch bool, elems []elem, reply string, ranDelta i
 			}
 			if e.Expect != "lenient" {
 				checkElemResp(e, objs[0], r, where)
-			} else if !objs[0].hasErr {
-				r.Violate("invalid-id-accepted", "%s: a request with an id of invalid type must be rejected with an error", where)
+			} else {
+				if !objs[0].hasErr {
+					r.Violate("invalid-id-accepted", "%s: a request with an id of invalid type must be rejected with an error", where)
+				}
+				if objs[0].id != "null" {
+					r.Violate("id-not-echoed", "%s: the id %s is neither string nor number, it cannot be determined: the reply must carry id null, not %s", where, e.IDRaw, objs[0].id)
+				}
 			}
 		}
 		return
